@@ -148,6 +148,28 @@ def tainted(env, t, top_body):
     return None
 
 
+def tainted_deep(env, t, top_body):
+    """like tainted, through expressions: a term is caller-controlled if a caller-controlled quantity occurs in it and is not
+    bounded on the way (`min(x, bounded)`); `opt.map_or(n, |u| u.min(n))` is n when opt is None"""
+    t = unref(t)
+    d = tainted(env, t, top_body)
+    if d:
+        return d
+    if t[0] == "call" and t[1] == "min" and len(t[2]) == 2:
+        a, b = tainted_deep(env, t[2][0], top_body), tainted_deep(env, t[2][1], top_body)
+        return a if (a and b) else None
+    if t[0] in ("call", "phi", "bin", "cast"):
+        subs = t[2] if t[0] == "call" else (t[1] if t[0] == "phi" else t[2:])
+        for x in subs:
+            if isinstance(x, tuple) and x and isinstance(x[0], str):
+                if x[0] == "agg" and x[1].startswith("closure:"):
+                    continue
+                d = tainted_deep(env, x, top_body)
+                if d:
+                    return d
+    return None
+
+
 def no_overflow_add(p, a, b):
     """a + b cannot overflow?"""
     a, b = unref(a), unref(b)
@@ -277,7 +299,7 @@ def rule_ovf(env, shared):
             # sizes near usize::MAX (only the buffered puller's constructor allocates chunk_size slots by documentation)
             amt = e.args[ALLOC_SIZED[e.info["mkey"]]]
             key = "OVF.alloc|%s|%s" % (owner_key(e), e.info["mkey"].split("::")[-1])
-            t = tainted(env, amt, top_body)
+            t = tainted_deep(env, amt, top_body)
             if t and u is not None:
                 put(Ob("OVF.alloc", key, "viol", e.loc(),
                        "a %s pull of %s allocates space for %s elements up front (%s): a request near usize::MAX panics "
